@@ -11,7 +11,7 @@ from fractions import Fraction as F
 FAMILIES = {
     "int": F(1), "half": F(1, 2), "quarter": F(1, 4), "dec_0.1": F(1, 10), "dec_0.01": F(1, 100),
     "dec_0.05": F(1, 20), "third_0.3": F(3, 10), "third_0.7": F(7, 10), "large_1e3": F(1000),
-    "small_1e-3": F(1, 1000),
+    "small_1e-3": F(1, 1000), "odd_1234.567": F(1234567, 1000), "tiny_3.3e-5": F(33, 1000000),
 }
 FAMILY_NAMES = list(FAMILIES) + ["float53"]
 
